@@ -16,7 +16,9 @@ EXPLANATION = ("(start-depends-on-cap) in fill_thread_stack, if the length of th
                "copy adds to the page start satisfies K <= sp_offset < K + cap and K + cap <= region length, decided from enumerated forms "
                "(round-down of sp_offset to a multiple of the cap, region_len - cap, min of both, 0 under a path condition that implies "
                "sp_offset < cap — path conditions are evaluated on order types of (sp_offset, cap, region_len)); an uncapped copy is exactly "
-               "the region get_stack_info returned.")
+               "the region get_stack_info returned; (find-mapping) the lookup get_stack_info relies on is the order-independent scan "
+               "mappings.iter().find(p) with p(m) <=> start_address <= address < start_address + size (evaluated on boundary points) — the mapping "
+               "list is not address-sorted because the entry-point mapping is swapped to the front.")
 TRUSTED = ["kernel guard-gap semantics", "page_size from sysconf"]
 ASSUMPTIONS = ["window-contains-sp relies on get_stack_info's contract start <= sp < start + length (C06/page-start decides the rounding and the extent, the mapping lookup itself is kernel data)",
                "a window offset written in a form outside the enumerated ones is reported as unproven, not silently accepted",
@@ -271,6 +273,97 @@ def rule_window_contains_sp(ctx):
     ctx.floor(R, "copy alternatives decided", n, 2)
 
 
+def closure_truth_table(cb, classify, points):
+    """truth of a bool-returning closure at the given points: OR over the assignments of the return place of
+    (path condition of the assigning block) AND (assigned value).  classify(expr) -> variable name or None."""
+    co = Origin(cb)
+    defs = []
+    for bi, blk in enumerate(cb.blocks):
+        if blk["cleanup"]:
+            continue
+        for si, st in enumerate(blk["stmts"]):
+            if st["k"] == "assign" and st["p"]["l"] == 0 and not st["p"]["proj"]:
+                val = co._rvalue(st["r"], (bi, si), 0)
+                dnf = conditions(cb, bi, origin=co, relevant=lambda a: ipe.is_cmp_atom(a))
+                if dnf is None:
+                    raise ipe.Unsupported("path condition too large")
+                defs.append((dnf, val))
+    if not defs:
+        raise ipe.Unsupported("no assignment of the closure result")
+    out = []
+    for env in points:
+        def leaf(e, env=env):
+            k = classify(e)
+            return env[k] if k else None
+        ev = ipe.Eval({}, {}, leaf=leaf)
+
+        def rw(a):
+            return ("bin", a[1], core(a[2]), core(a[3]), "usize") if a[0] == "bin" else a
+        t = False
+        for dnf, val in defs:
+            if any(all(ev.lit(rw(a), v) for (a, v) in c) for c in dnf) and ev.val(core(val))[0] == 1:
+                t = True
+        out.append(t)
+    return out
+
+
+def rule_find_mapping(ctx):
+    """get_stack_info looks mappings up with PtraceDumper::find_mapping.  The mapping list is NOT address-sorted
+    (enumerate_mappings swaps the entry-point mapping to the front, C08/entry-first), so the lookup has to be the
+    order-independent scan `mappings.iter().find(|m| start <= a < start + size)`."""
+    R = "C06/find-mapping"
+    b = ctx.body(R, "linux::ptrace_dumper::PtraceDumper::find_mapping")
+    if b is None:
+        return
+    o = Origin(b)
+    finds = [bi for bi, t in b.calls(lambda c: (c.short or "").split("::")[-1] == "find" and "Iterator" in (c.short or ""))]
+    if len(finds) != 1:
+        others = sorted({(CalleeView(t["callee"]).short or "?").split("::")[-1] for _, t in b.calls()})
+        ctx.unproven(R, "scan", b.where(0), "find_mapping is not a linear scan with Iterator::find (calls: %s); PtraceDumper::mappings is not sorted by address "
+                     "(the entry-point mapping is swapped to the front), so an order-dependent lookup can miss the mapping that holds the stack pointer" % ", ".join(others))
+        return
+    a = o.call_args(finds[0])
+    recv = strip(a[0])
+    okr = recv[0] == "call" and recv[1].split("::")[-1] == "iter" and strip(recv[2][0]) == ("field", ("param", 1), "mappings")
+    ctx.check(okr, R, "scan-over-mappings", b.where(finds[0]), "the scan ranges over every element of self.mappings", "the scan ranges over %s" % show(recv)[:120])
+    from engine.summ import return_origins
+    rets = [nosite(strip(x)) for x in (return_origins(ctx.prog, b.short) or [])]
+    ctx.check(all(x == nosite(strip(o.call_expr(finds[0]))) for x in rets) and bool(rets), R, "returns-found", b.where(finds[0]), "find_mapping returns what the scan found",
+              "find_mapping returns %s" % [show(x)[:80] for x in rets])
+    cl = strip(a[1])
+    if cl[0] != "closure":
+        ctx.unproven(R, "predicate", b.where(finds[0]), "the scan predicate is not a closure literal")
+        return
+    cb = ctx.prog.by_short[cl[1]][0]
+
+    def classify(e):
+        e = core(e)
+        if e[0] == "field" and e[2] == "start_address":
+            return "S"
+        if e[0] == "field" and e[2] == "size":
+            return "Z"
+        x = e
+        while isinstance(x, tuple) and x and x[0] in ("field", "proj", "deref", "upvar") and isinstance(x[1], tuple):
+            x = x[1]
+        if e[0] in ("field", "upvar", "proj", "deref") and x == ("param", 1):
+            return "A"   # a captured variable of the closure (the address looked up)
+        return None
+    pts = []
+    for S in (0, 0x1000, 0x7fff0000):
+        for Z in (1, 0x1000):
+            for A in {0, S - 1, S, S + 1, S + Z - 1, S + Z, S + Z + 1, ipe.M64}:
+                if 0 <= A <= ipe.M64:
+                    pts.append({"S": S, "Z": Z, "A": A})
+    try:
+        tt = closure_truth_table(cb, classify, pts)
+    except ipe.Unsupported as e:
+        ctx.unproven(R, "predicate", cb.where(0), "cannot evaluate the scan predicate: %s" % e)
+        return
+    bad = [p_ for p_, t in zip(pts, tt) if t != (p_["S"] <= p_["A"] < p_["S"] + p_["Z"])]
+    ctx.check(not bad, R, "predicate", cb.where(0), "an element is selected iff start_address <= address < start_address + size (evaluated on %d boundary points)" % len(pts),
+              "the scan predicate is not start <= address < start + size, e.g. at start=%#x size=%#x address=%#x" % ((bad[0]["S"], bad[0]["Z"], bad[0]["A"]) if bad else (0, 0, 0)))
+
+
 def rule_who_is_shortened(ctx):
     R = "C06/who-is-shortened"
     b = ctx.body(R, TLW)
@@ -463,3 +556,4 @@ def run(ctx):
     rule_who_is_shortened(ctx)
     rule_descriptor_agrees(ctx)
     rule_page_start(ctx)
+    rule_find_mapping(ctx)
